@@ -3,9 +3,11 @@
 package main
 
 import (
+	"encoding/json"
 	"fmt"
 	"reflect"
 	"sort"
+	"sync"
 	"unsafe"
 
 	"github.com/csgura/fp"
@@ -262,6 +264,52 @@ func (t tcType[T]) run(out *Out, id, what string, vals []*AV) {
 			after2 := t.av(cl2)
 			out.Ev("Clone", "ty", id, "val", vals[i].tla(), "before", before.tla(), "cl", clav.tla(), "shared", shared, "after", after.tla(),
 				"cl2", cl2av.tla(), "after2", after2.tla())
+		}
+		// the same instance used by several goroutines on the same value at once: every clone is still equal to the original and
+		// no two clones share storage (an instance that keeps per-instance state between calls would hand out half-built copies)
+		if len(gv) > 0 {
+			const G, R = 8, 120
+			for _, i := range []int{len(gv) - 1, len(gv) / 2} {
+				orig := t.mk(vals[i], &tcPool{m: map[int]any{}})
+				want := t.av(orig).tla()
+				wantJSON, _ := json.Marshal(want)
+				var wg sync.WaitGroup
+				start := make(chan struct{})
+				last := make([]T, G)
+				bad := make([]int, G)
+				for g := 0; g < G; g++ {
+					wg.Add(1)
+					go func(g int) {
+						defer wg.Done()
+						defer func() {
+							if r := recover(); r != nil {
+								bad[g] += 1000
+							}
+						}()
+						<-start
+						for r := 0; r < R; r++ {
+							cl := t.clone.Clone(orig)
+							got, _ := json.Marshal(t.av(cl).tla())
+							if string(got) != string(wantJSON) {
+								bad[g]++
+							}
+							last[g] = cl
+						}
+					}(g)
+				}
+				close(start)
+				wg.Wait()
+				nbad, pairs := 0, 0
+				for g := 0; g < G; g++ {
+					nbad += bad[g]
+					for h := g + 1; h < G; h++ {
+						if tcShared(reflect.ValueOf(&last[g]).Elem(), reflect.ValueOf(&last[h]).Elem()) > 0 {
+							pairs++
+						}
+					}
+				}
+				out.Ev("CloneConc", "ty", id, "val", vals[i].tla(), "goroutines", G, "rounds", R, "bad", nbad, "sharedpairs", pairs)
+			}
 		}
 	}
 }
